@@ -64,7 +64,10 @@ func GetAggregatorContext(ctx sdk.Context, k Keeper) *aggregator.AggregatorConte
 
 func recacheAggregatorContext(ctx sdk.Context, agc *aggregator.AggregatorContext, k Keeper, c *cache.Cache) bool {
 	logger := k.Logger(ctx)
-	from := ctx.BlockHeight() - int64(common.MaxNonce) + 1
+	// in a freshly started process common.MaxNonce still holds its compiled-in default: the
+	// replay window must be computed from the stored params, or blocks of the current window
+	// are skipped whenever the configured value is larger than the default.
+	from := ctx.BlockHeight() - int64(k.GetParams(ctx).MaxNonce) + 1
 	to := ctx.BlockHeight()
 
 	h, ok := k.GetValidatorUpdateBlock(ctx)
